@@ -6,7 +6,7 @@
    output = L [A class_rank; receive result or A (-1) when the protocol refuses the serializer for that path;
                chunks produced for the probe or A (-1)] *)
 From Coq Require Import ZArith List Bool.
-From EN Require Import Lib.Bytes Lib.Sx Frame.Serialize Frame.Stapled Gen.ParamsC01.
+From EN Require Import Lib.Bytes Lib.Sx Frame.Serialize Frame.Stapled Frame.Base64 Gen.ParamsC01.
 From EN Require Run.Stream Run.C06.
 Import ListNotations.
 
@@ -24,8 +24,34 @@ Definition run_stapled (cls s r : Z) (inner : sx) (probe : bytes) : sx :=
   | _ => bad_input
   end.
 
+(* kind 31: Base64EncoderSerializer over a bytes pass-through.
+   input = L [A 31; A urlsafe; A checksum; B data; L [L [B body; B digest] ...]; L [B token ...]]
+   (the table gives the real digest of every body the run hashes; tokens = further tokens to deserialize)
+   output = L [B serialize(data); deserialize(serialize(data)); L [deserialize(token) ...]] *)
+Fixpoint digest_lookup (t : list (bytes * bytes)) (x : bytes) : bytes :=
+  match t with
+  | [] => []
+  | (k, v) :: t' => if bytes_eqb k x then v else digest_lookup t' x
+  end.
+
+Definition dres (r : option bytes) : sx :=
+  match r with Some p => L [A 0; B p] | None => L [A 1] end%Z.
+
+Definition run_b64 (url ck : Z) (data : bytes) (table tokens : list sx) : sx :=
+  match map_opt (fun r => match r with L [B k; B v] => Some (k, v) | _ => None end) table,
+        map_opt (fun r => match r with B t => Some t | _ => None end) tokens with
+  | Some t, Some toks =>
+      let u := negb (Z.eqb url 0) in
+      let h := if Z.eqb ck 0 then None else Some (digest_lookup t) in
+      let ser := b64_serialize u h (fun x : bytes => x) in
+      let de := b64_deserialize u h (fun x : bytes => Some x) in
+      L [B (ser data); dres (de (ser data)); L (map (fun tok => dres (de tok)) toks)]
+  | _, _ => bad_input
+  end.
+
 Definition run (i : sx) : sx :=
   match i with
+  | L [A 31%Z; A url; A ck; B data; L table; L tokens] => run_b64 url ck data table tokens
   | L [A 30%Z; A cls; A s; A r; inner; B probe] => run_stapled cls s r inner probe
   | L (A k :: _) =>
       if (Z.leb 4 k && Z.leb k 8)%bool then Run.C06.run i else Run.Stream.run i
